@@ -450,7 +450,9 @@ func (s *Stream) handleFrame(f Frame) (err error) {
 		}
 	}
 
-	if err != nil {
+	if err != nil && s.state == StateActive {
+		// Only one Close frame may ever be sent: if we already started closing (by Close() or an earlier violation) there
+		// is nothing more to queue.
 		s.state = StateClosedByUs
 		// TODO consider flushing the close
 		s.prepareClose(EncodeCloseFramePayload(CloseProtocolError, ""))
